@@ -72,6 +72,21 @@ POOL = [dict(module="MC_C01"), dict(module="MC_C03"), dict(module="MC_C04"), dic
         dict(module="MC_C11", tiers=("thorough",))]
 
 
+SCOPE_EVENTS = {"enter_stmts", "exit_stmts", "enter_arrow", "exit_arrow", "gen_slot", "iife_take", "capture",
+                "assign_enter", "assign_exit", "assign_seen", "drain_module"}
+
+
+def c06_slim(ob):
+    """only what Judge_C06 reads"""
+    a, d, rt = ob["abs"], ob["drv"], ob["rt"]
+    keep = ("term", "reparse", "free_in", "free_out", "ids_raw", "ids_out", "loose", "gen", "ndiag")
+    dd = {k: d[k] for k in keep if k in d}
+    dd["hooks"] = [h for h in d.get("hooks", []) if h.get("ev") in SCOPE_EVENTS]
+    return dict(case=ob["case"], ran=ob["ran"], why_not_run=ob["why_not_run"],
+                abs={k: a[k] for k in ("case", "module", "sites", "predicted", "opts") if k in a},
+                drv=dd, rt=dict(exports=rt["exports"], errors=rt["errors"], events=[]))
+
+
 def c06_post(cases, tier, seed):
     out = []
     for i, c in enumerate(cases):
@@ -153,7 +168,8 @@ PROPS = {
                      "on/nativeOn under transformOn is an attribute value: strict source order"],
     ),
     "C13": dict(
-        mc=[dict(module="MC_C13F", heap="10g"), dict(module="MC_C13S", heap="10g"), dict(module="MC_C13")], judge="Judge_C13", want=["js"],
+        mc=[dict(module="MC_C13F", heap="10g", actions=["StepAttr"]),
+            dict(module="MC_C13S", heap="10g", actions=["Push", "Fill", "Pop"]), dict(module="MC_C13")], judge="Judge_C13", want=["js"],
         rule="TLC model-checks AttrsFold.tla (the transform_attrs fold, one step per attribute) over every enumerated attribute "
              "sequence — AgreesWithOperator, Sound (the model's own flags satisfy the property's clauses), DynNamesDistinct, "
              "NeverNegative, Monotone — and SlotFlags.tla (the slot-flag stack: push / fill / pop) over every nested component tree "
@@ -181,7 +197,8 @@ PROPS = {
         assumptions=["hints = arguments 4-5 of vnode calls and the `_` entry of slot objects"],
     ),
     "C06": dict(
-        mc=[dict(module="MC_C06", heap="10g")], post=c06_post, judge="Judge_C06", want=["js", "scope"],
+        mc=[dict(module="MC_C06", heap="10g", actions=["EnterStmts", "ExitStmts", "EnterArrow", "ExitArrow", "AssignEnter", "AssignExit",
+                                                           "SiteStep", "DrainModule"])], post=c06_post, obs_slim=c06_slim, judge="Judge_C06", want=["js", "scope"],
         rule="TLC model-checks Visitor.tla (the traversal state machine: pending-declaration frames, slot counter, assignment "
              "target, helper/import flags) over ALL module histories up to the bounds (items: JSX sites needing no temporary / a "
              "call temporary / the captured-identifier path, assignments, functions, default parameters, arrows, nested arrows, "
@@ -218,7 +235,7 @@ PROPS = {
                      "re-parsing on the printed text with JSX disabled"],
     ),
     "C08": dict(
-        mc=[dict(module="MC_C08T", heap="10g"), dict(module="MC_C07"), dict(module="MC_C17"), dict(module="MC_C16"), dict(module="MC_C18"), dict(module="MC_C20", tiers=("thorough",))] + POOL, post=pool_post("C08", 4000, 60000), judge="Judge_C08", want=["det"], node=False, case_timeout=8.0,
+        mc=[dict(module="MC_C08T", heap="10g", actions=["Return", "Call", "Finish"]), dict(module="MC_C07"), dict(module="MC_C17"), dict(module="MC_C16"), dict(module="MC_C18"), dict(module="MC_C20", tiers=("thorough",))] + POOL, post=pool_post("C08", 4000, 60000), judge="Judge_C08", want=["det"], node=False, case_timeout=8.0,
         rule="TLC model-checks TypeResolve.tla (the type-resolution stack machine with its depth bound) over every declaration graph "
              "on three names (2 197 graphs: literal / alias / intersection bodies) — liveness `Termination`, safety `ReportsCycles`, "
              "`DepthBounded`, `NoOverflow` — and every graph is replayed on the real resolveType (cycle reported iff reachable; the "
